@@ -89,6 +89,10 @@
 (* print: operand printing stores the type while holding no mutex;         *)
 (* FillGlobalCachesUnderLock = TRUE restores it.                           *)
 (*                                                                         *)
+(* With SharedScratch = TRUE (a printing helper keeps scratch state in a   *)
+(* package-level variable) NoRace and TextEqual fail from every start      *)
+(* state.                                                                  *)
+(*                                                                         *)
 (* Binding to the code: harness/props/c13 runs the real printers under the *)
 (* Go race detector (same kinds, same start states) and maps every report  *)
 (* to a class <<cell, writer step, other party>>; the hook events          *)
